@@ -279,6 +279,16 @@ def run_item(item):
             outs.append(violated('c11:not-prefix-of-prefix-run', 'what was written after %d input lines is not a prefix of what delta writes for those lines alone' % (k + 1),
                                  None, written[-200:].decode('utf-8', 'replace'), run=alone, sets=sets, counters=counters))
             return outs
+        # (a2) only the open run is held back: everything delta writes for the input before the open run (file header,
+        # hunk header, earlier lines) is on stdout by now
+        if role == 'hunk':
+            base = alone if open_run == 0 else runner.run_delta(args, b'\n'.join(blines[:k + 1 - open_run]) + b'\n')
+            if crashmod.classify(base) is None and base.rc == 0 and len(written) < len(base.out) and base.out.startswith(written):
+                outs.append(violated('c11:held-back-before-open-run', 'after %d input lines (open run of changed lines: %d) only %d of the %d bytes that delta writes for '
+                                     'the input before the open run are on stdout: headers or earlier lines are held back'
+                                     % (k + 1, open_run, len(written), len(base.out)), len(base.out), len(written), run=base, sets=sets, counters=counters))
+                return outs
+            counters['before_open_run_checked'] = 1
         # (b) bounded lag inside a hunk (unified view, tagged rows: one row per line)
         nontrivial = role == 'hunk'
         if role == 'hunk' and tagged and view == 'unified':
